@@ -98,7 +98,7 @@ PIN_ANCHORS = [
     (CO, "SQLCompiler.render_literal_value"),
     (CO, "SQLCompiler.render_literal_bindparam"),
     (CO, "SQLCompiler._literal_execute_expanding_parameter_literal_binds"),
-    (CO, "SQLCompiler._process_parameters_for_postcompile.process_expanding"),
+    (CO, "SQLCompiler._process_parameters_for_postcompile"),
     ("lib/sqlalchemy/dialects/oracle/types.py", "_OracleDateLiteralRender"),
     ("lib/sqlalchemy/dialects/sqlite/base.py", "_DateTimeMixin.literal_processor"),
 ]
@@ -544,6 +544,14 @@ NUM_DEC = ["0", "1.10", "-1.10", "1E+3", "0E-7", "-0", "12345.678", "NaN", "-NaN
 NUM_INT = ["0", "7", "-7", "1000000"]
 
 
+# the pre-expanded text of the post-compile family's statement on the default SQLite dialect (the
+# implementation side checks that this is what the compiler produces)
+PRE6 = (
+    "SELECT d.id \nFROM d \nWHERE d.a = __[POSTCOMPILE_zq] AND d.b IN (__[POSTCOMPILE_x]) "
+    "AND d.b != __[POSTCOMPILE_y] ORDER BY d.id"
+)
+
+
 def _rstr(rng, maxn=8):
     n = rng.choice([0, 1, 1, 2, 2, 3, 4, 5, maxn])
     return "".join(rng.choice(ATOMS) for _ in range(n))
@@ -625,6 +633,25 @@ def gen_cases(rng, tier):
     for kd, text in [(1, "-1.5"), (2, "-2.50"), (0, "-3"), (1, "1.5"), (0, "+4")]:
         for cfg in [(0, 2, 6), (1, 2, 6), (2, 2, 6)]:
             cases.append(_case(cfg, 0, 10, 6 if kd == 1 else 5, [[4, [kd, S(text)]]], "numeric-neg"))
+    # --- non-str Python values whose literal is a quoted string (TypeDecorator over String)
+    for cfg in sorted(set(CONFIGS)) if big else SMALL_CONFIGS:
+        for sv in ["\\", "\\' OR 1=1 -- ", "C:\\temp\\new", "it's", "trailing\\", "50%", "plain", "\\\\'"]:
+            cases.append(_case(cfg, rng.randint(0, 1), rng.choice(STR_POS), 10, [[8, S(sv)]], "obj-str"))
+    for _ in range(1500 if big else 100):
+        cfg = rng.choice(CONFIGS)
+        if rng.random() < 0.3:
+            cases.append(_case(cfg, rng.randint(0, 1), 2, 10, [[8, S(_rstr(rng, 4))] for _ in range(rng.randint(1, 3))], "obj-str"))
+        else:
+            cases.append(_case(cfg, rng.randint(0, 1), rng.choice(STR_POS), 10, [[8, S(_rstr(rng))]], "obj-str"))
+    # --- post-compile substitution: string values that spell tokens of other parameters
+    PCV = ["__[POSTCOMPILE_x]", "__[POSTCOMPILE_zq]", "__[POSTCOMPILE_y]", "__[POSTCOMPILE_nothing]",
+           "__[POSTCOMPILE_x~~lower(~~REPL~~)~~]", " OR 1=1 OR ", "'", "", "a", "a, b", "?", "%(x)s", "__[", "]", "_",
+           "x __[POSTCOMPILE_y] '", "__[POSTCOMPILE_x_1]"]
+    for _ in range(3000 if big else 200):
+        kind_x = rng.choice([1, 2])
+        pick = lambda: rng.choice(PCV) if rng.random() < 0.8 else _rstr(rng, 3)
+        bs = [[S("zq"), 0, [S(pick())]], [S("x"), kind_x, [S(pick()) for _ in range(rng.randint(1, 3))]], [S("y"), 0, [S(pick())]]]
+        cases.append({"in": [6, [0, 2, 6], S(PRE6), bs], "kind": "postcompile"})
     # --- numeric paramstyle: executed on a SQLite engine with paramstyle="numeric" (oracle only)
     for v in ["%(x_1)s", "%(x_2)s", "%(zq)s", "plain", "%(x_1)", "100%", "a%(x_3)sb"]:
         for mode in (0, 1):
@@ -680,7 +707,7 @@ def nontrivial(c):
     i = c["in"]
     if i[0] == 0:
         for v in i[5]:
-            if v[0] == 1 and any(ch in (39, 92, 37) or ch > 127 for ch in v[1]):
+            if v[0] in (1, 8) and any(ch in (39, 92, 37) or ch > 127 for ch in v[1]):
                 return True
             if v[0] == 2 and v[1] < 0:
                 return True
@@ -689,6 +716,8 @@ def nontrivial(c):
             if v[0] in (5, 6, 7):
                 return True
         return i[3] in (9, 10)
+    if i[0] == 6:
+        return any(95 in v for b in i[3] for v in b[2])
     return 39 in i[-1] or i[0] in (2, 4)
 
 
@@ -714,7 +743,30 @@ def _setup():
         def bind_expression(self, bindvalue):
             return sa.func.lower(bindvalue)
 
+    class Box:
+        """a non-str Python value; the type below sends str(box) to the database"""
+
+        def __init__(self, s):
+            self.s = s
+
+        def __str__(self):
+            return self.s
+
+        def __eq__(self, other):
+            return isinstance(other, Box) and other.s == self.s
+
+        def __hash__(self):
+            return hash(self.s)
+
+    class BoxType(TypeDecorator):
+        impl = sa.String
+        cache_ok = True
+
+        def process_bind_param(self, value, dialect):
+            return str(value) if value is not None else None
+
     md = sa.MetaData()
+    dd = sa.Table("d", md, sa.Column("id", sa.Integer, primary_key=True), sa.Column("a", sa.String), sa.Column("b", sa.String))
     t = sa.Table(
         "t", md, sa.Column("id", sa.Integer, primary_key=True), sa.Column("s", sa.String), sa.Column("n", sa.Integer),
         sa.Column("f", sa.Float),
@@ -724,7 +776,8 @@ def _setup():
     eng = sa.create_engine("sqlite://")
     md.create_all(eng)
     _ST.update(
-        sa=sa, mods=[sqlite, postgresql, mysql, mssql, oracle], Low=Low, t=t, w=w, eng=eng, md=md, dialects={},
+        sa=sa, mods=[sqlite, postgresql, mysql, mssql, oracle], Low=Low, Box=Box, BoxType=BoxType, t=t, w=w, d=dd,
+        eng=eng, md=md, dialects={}, pc={},
         conn=eng.connect(),
     )
     return _ST
@@ -775,6 +828,8 @@ def _pyvalue(v):
         if kd == 2:
             return decimal.Decimal(text)
         return int(text)
+    if k == 8:
+        return _setup()["Box"](unS(v[1]))
     if k == 5:
         return datetime.date(*v[1])
     if k == 6:
@@ -786,6 +841,8 @@ def _pyvalue(v):
 
 def _satype(ty):
     sa = _setup()["sa"]
+    if ty == 10:
+        return _setup()["BoxType"]()
     return [sa.String(), sa.Unicode(), None, sa.Integer(), sa.Boolean(), sa.Numeric(), sa.Float(), sa.Date(), sa.Time(), sa.DateTime()][ty]
 
 
@@ -940,7 +997,98 @@ def impl(c):
         return [0] if r is None else [1, S(r[0]), S(r[1])]
     if fam == 5:
         return S(py_collapse(unS(inp[1])))
+    if fam == 6:
+        params, le_x = _pc_params(inp)
+        comp = _pc_compiled(le_x)
+        if comp.string != unS(inp[2]):
+            return [2, S(comp.string)]
+        try:
+            es = comp._process_parameters_for_postcompile(comp.construct_params(params, _check=False))
+        except KeyError:
+            return [3]
+        return [0, S(es.statement)]
     raise ValueError(fam)
+
+
+def _pc_params(inp):
+    bs = {unS(b[0]): b for b in inp[3]}
+    params = {"zq": unS(bs["zq"][2][0]), "x": [unS(v) for v in bs["x"][2]], "y": unS(bs["y"][2][0])}
+    return params, bs["x"][1] == 1
+
+
+def _pc_stmt(le_scalar, le_x):
+    st = _setup()
+    sa, d = st["sa"], st["d"]
+    return (
+        sa.select(d.c.id)
+        .where(d.c.a == sa.bindparam("zq", type_=sa.String, literal_execute=le_scalar))
+        .where(d.c.b.in_(sa.bindparam("x", type_=sa.String, expanding=True, literal_execute=le_x)))
+        .where(d.c.b != sa.bindparam("y", type_=sa.String, literal_execute=le_scalar))
+        .order_by(d.c.id)
+    )
+
+
+def _pc_compiled(le_x):
+    st = _setup()
+    if le_x not in st["pc"]:
+        st["pc"][le_x] = _pc_stmt(True, le_x).compile(dialect=st["eng"].dialect)
+    return st["pc"][le_x]
+
+
+def _pc_oracle(inp, obs):
+    """the statement keeps its shape (every token became exactly the literal(s) of its own value) and
+    returns the rows of the bound form"""
+    st = _setup()
+    params, le_x = _pc_params(inp)
+    if obs == [3]:
+        return "literal_execute: internal KeyError while substituting post-compile parameters"
+    if obs[0] != 0:
+        return None
+    text = unS(obs[1])
+    chunks = re.split(r"__\[POSTCOMPILE_(zq|x|y)\]", PRE6)
+    pos = 0
+    for i, ch in enumerate(chunks):
+        if i % 2 == 0:
+            if not text.startswith(ch, pos):
+                return "literal_execute: the statement changed shape at %r (expected %r)" % (text[pos : pos + 50], ch[:40])
+            pos += len(ch)
+            continue
+        vals = params[ch] if ch == "x" else [params[ch]]
+        for j, v in enumerate(vals):
+            if j:
+                if not text.startswith(", ", pos):
+                    return "literal_execute: IN list broken at %r" % text[pos : pos + 40]
+                pos += 2
+            if ch == "x" and not le_x:
+                if not text.startswith("?", pos):
+                    return "literal_execute: placeholder expected at %r" % text[pos : pos + 40]
+                pos += 1
+                continue
+            lx = py_lex_str(0, False, text[pos:])
+            if lx is None or lx[0] != v:
+                return "literal_execute: parameter %s=%r is rendered as %r" % (ch, v[:40], text[pos : pos + 60])
+            pos = len(text) - len(lx[1])
+    if pos != len(text):
+        return "literal_execute: trailing text %r" % text[pos : pos + 40]
+    # live execution
+    conn = st["conn"]
+    d = st["d"]
+    try:
+        conn.exec_driver_sql("DELETE FROM d")
+        avals = [params["zq"], "", "zz"]
+        bvals = list(dict.fromkeys(params["x"] + [params["y"], "other", " OR 1=1 OR ", ""]))
+        rows = [{"a": a, "b": b} for a in avals for b in bvals]
+        conn.execute(d.insert(), rows)
+        want = conn.execute(_pc_stmt(False, False), params).all()
+        try:
+            got = conn.execute(_pc_stmt(True, le_x), params).all()
+        except Exception as e:
+            return "bound statement returns %d rows, the literal_execute statement fails: %s" % (len(want), str(e).split("\n")[0][:120])
+        if want != got:
+            return "rows differ on SQLite: bound %r, literal_execute %r" % (want[:4], got[:6])
+        return None
+    finally:
+        conn.rollback()
 
 
 # ---------------------------------------------------------------------- the property, stated directly
@@ -1033,6 +1181,8 @@ def _same_number(a, b):
 
 def oracle(c, obs):
     inp = c["in"]
+    if inp[0] == 6:
+        return _pc_oracle(inp, obs)
     if inp[0] != 0:
         return None
     _, cfg, mode, pos, ty, vals = inp
@@ -1063,7 +1213,7 @@ def oracle(c, obs):
         k = v[0]
         if k == 0:
             return text[4:] if text.startswith("NULL") and not _idchar(text[4:5] or " ") else "!NULL expected"
-        if k == 1:
+        if k in (1, 8):
             lx = py_lex_str(em, npre, text)
             if lx is None:
                 return "!the rendered text is not a string literal for the server: %r" % text[:80]
@@ -1171,10 +1321,10 @@ def match_finding(c, what):
     if pos == 10 and all((v[0] == 2 and v[1] < 0) or (v[0] == 4 and unS(v[1][1]).startswith("-")) for v in vals):
         if "comment" in what or "fails on SQLite" in what or "not one numeric literal" in what:
             return "C05-negated-negative-literal-comment"
-    if pos == 9 and mode == 1 and any(v[0] == 1 and ", " in unS(v[1]) for v in vals):
+    if pos == 9 and mode == 1 and any(v[0] in (1, 8) and ", " in unS(v[1]) for v in vals):
         return "C05-literal-execute-bind-expression-split"
     ps = cfg[2] if cfg[2] != 6 else DEFAULT_PS[cfg[0]]
-    strs = [unS(v[1]) for v in vals if v[0] == 1]
+    strs = [unS(v[1]) for v in vals if v[0] in (1, 8)]
     if strs and PYFORMAT.search("', '".join(strs)):
         if ps in (4, 5):
             return "C05-numeric-paramstyle-pyformat-in-literal"
